@@ -606,11 +606,13 @@ func (c *Conn) send(ctx context.Context, f func(context.Context) error) error {
 		if err := c.state.WaitUntilOrClosed(ctx, connStatusConnected); err != nil {
 			return err
 		}
+		outages := c.state.Outages()
 		if err := f(ctx); err != nil {
 			if !errors.Is(err, errors.ErrConnectionClosed) {
 				return err
 			}
-			if c.state.CompareAndSwapNot(connStatusClosed, connStatusReconnecting) {
+			// (an outage that was noticed while f was running is not reported a second time)
+			if c.state.MarkReconnectingSince(outages) {
 				continue
 			}
 			return errors.ErrConnectionClosed
